@@ -158,6 +158,71 @@ def run_model(mode, histories, prof, numbering):
     out = _run_sharded(lambda fi, fo: [DRIVER, mode, fi, fo], lines, f'model-{mode}-{prof}')
     return [parse_obs_line(l) for l in out]
 
+# ------------------------------------------------------------------------------- extraction cross-check
+def coq_uval(u):
+    if isinstance(u, bool): return f'(UN {int(u)}%N)'
+    if isinstance(u, int): return f'(UN {u}%N)'
+    if u is None: return 'UNone'
+    if isinstance(u, list): return '(UL [' + '; '.join(coq_uval(x) for x in u) + '])'
+    if isinstance(u, tuple): return '(' + {'S': 'USome', 'O': 'UOk', 'E': 'UErr'}[u[0]] + ' ' + coq_uval(u[1]) + ')'
+    raise ValueError(u)
+
+def coq_op(op):
+    k = op[0]; nats = lambda l: '[' + '; '.join(str(x) for x in l) + ']'
+    b = lambda x: 'true' if x else 'false'
+    if k == 'push': return f'(OPush {op[1]} {op[2]}%N {coq_uval(op[3])})'
+    if k == 'probe': return f'(OProbe {op[1]})'
+    if k == 'probeo': return f'(OProbeOwned {op[1]})'
+    if k == 'read': return f'(ORead {op[1]})'
+    if k == 'clear': return f'(OClear {op[1]})'
+    if k == 'merge': return f'(OMerge {op[1]} {nats(op[2])})'
+    if k == 'clone': return f'(OClone {op[1]} {op[2]})'
+    if k == 'clonefrom': return f'(OCloneFrom {op[1]} {op[2]})'
+    if k == 'pushitem': return f'(OPushItem {op[1]} {op[2]} {op[3]} {b(op[4])})'
+    if k == 'cloneonto': return f'(OCloneOnto {op[1]} {op[2]} {coq_uval(op[3])})'
+    if k == 'resitems': return f'(OReserveItems {op[1]} [' + '; '.join(coq_uval(x) for x in op[2]) + '])'
+    if k == 'resregs': return f'(OReserveRegions {op[1]} {nats(op[2])})'
+    if k == 'heap': return f'(OHeap {op[1]})'
+    if k == 'serde': return f'(OSerde {op[1]})'
+    if k == 'allocs': return f'(OAllocs {op[1]})'
+    if k == 'cmp': return f'(OCmp {op[1]} {op[2]} {b(op[3])} {op[4]} {op[5]} {b(op[6])})'
+    raise ValueError(op)
+
+def coq_obs(o, parse):
+    if o.startswith('i='): return f'(BIdx {coq_uval(parse(o[2:]))})'
+    if o.startswith('v='): return f'(BVal {coq_uval(parse(o[2:]))})'
+    return {'P': 'BPanic', 'ILL': 'BIll', '-': 'BNone'}[o]
+
+def vm_crosscheck(cases, model_obs, prof, numbering, parse, limit=25):
+    """Re-evaluate a sample of histories INSIDE Coq (vm_compute on the same definitions the theorems are
+    about) and compare with what the extracted OCaml driver printed: checks extraction + driver.
+    Returns (checked, failures[])"""
+    cs = column_sizes()
+    chk = 'true' if prof == 'checked' else 'false'
+    lines = ['From FC Require Import Base.Res Model.Wire Model.Machine Model.Catalogue Model.Extract.', 'Local Open Scope nat_scope.']
+    picked = []
+    for i, ((name, ops), mo) in enumerate(zip(cases, model_obs)):
+        if len(picked) >= limit: break
+        if sum(len(str(o)) for o in ops) > 1500: continue
+        if any(g and g[0] in ('CRASH', 'unknown-entry') for g in mo): continue
+        picked.append(i)
+        sz = cs.get(name, '-')
+        szs = '[' + '; '.join(f'{int(x, 16)}%N' for x in (sz.split(',') if sz != '-' else [])) + ']'
+        exp = '[' + '; '.join('[' + '; '.join(coq_obs(o, parse) for o in g) + ']' for g in mo) + ']'
+        lines.append(f'Goal run_entry {chk} {szs} {numbering[name]}%N [' + '; '.join(coq_op(o) for o in ops) + f'] = Some {exp}.')
+        lines.append(f'Proof. vm_compute. first [reflexivity | idtac "MISMATCH {i}"]. Abort.')
+    d = os.path.join(BUILD, 'audit'); os.makedirs(d, exist_ok=True)
+    f = os.path.join(d, f'cases_{os.getpid()}.v')
+    open(f, 'w').write('\n'.join(lines) + '\n')
+    rc, out = sh(['timeout', '300', 'coqc', '-Q', COQ, 'FC', f], cwd=d)
+    for ext in ('.v', '.vo', '.vok', '.vos', '.glob'):
+        try: os.remove(f[:-2] + ext)
+        except OSError: pass
+    bad = [int(x) for x in re.findall(r'MISMATCH (\d+)', out)]
+    if rc != 0 and not bad:
+        return len(picked), [{'kind': 'vm_compute-crosscheck', 'detail': out[-1500:]}]
+    return len(picked), [{'kind': 'vm_compute-crosscheck', 'case': cases[i][0], 'history': [str(o) for o in cases[i][1]][:50]} for i in bad]
+
 # ------------------------------------------------------------------------------- proof audit
 def theorems_of(vfile):
     txt = open(vfile).read()
